@@ -29,7 +29,7 @@ use std::time::Duration;
 pub static INFO: PropInfo = PropInfo {
     id: "C18",
     level: "exploration",
-    rule: "one evaluation = one simulated pair (real NetcodeServer + real NetcodeClient, addressed datagram network with per-datagram drop / duplicate / delay decisions, virtual time, tick lengths {10,100,250,400 ms, irregular}, timeouts {1,5,15 s,-1}) in one of five seeded scenarios: (H) handshake under a fault phase (random loss up to 90 %, duplication, reordering, or scripted 'lose the first n copies of handshake packet k' for each of the four packets), then faults stop and the pair must be connected on both sides within B = 4*(250 ms + 2*dt_max) + 1 s unless the token expiry or the client's own timeout falls inside B or the server is full; in half of the (H) pairs with other clients some of those were disconnected by the server application (NetcodeServer::disconnect) before the honest client starts - their slots are free whatever way they left; in half of the (H) pairs 1-5 OTHER addresses have started a handshake with valid tokens and abandoned it (half-open sessions are not connected clients and take nobody's slot); variants with other clients connected, the limit raised above its construction value, lowered to full and raised again; in half of the (H) and (F) pairs the applications STREAM: the server hands a payload to the session every tick from the moment it reports the client connected, the client likewise once connected; (F) failover: 1-2 silent server addresses listed before the real one; the client's clock does not share an origin with the clock the token was stamped on in half of the pairs (it starts near zero, or an hour to twelve days ahead: only durations matter to a client); (T) timeouts: connect, chatty phase with loss, then one or both directions go silent; at every update / update_client the deadline monitor demands a disconnect iff no authentic packet arrived for more than `timeout`, and forbids it while one arrived within `timeout`; the same history is run twice, once with injected datagrams (replayed Response / Request, random type-0 datagram, replayed / bit-flipped / wrong-key keep-alives, replayed Challenge) and the disconnect times of the twins are compared; (L) long lossy-but-live session in which each direction delivers at least one authentic packet per timeout/2: no disconnect allowed - in half of these the token lives 5-9 s and the session outlives it (a token bounds the handshake, not the session); (R) restart: a client starts a handshake and is gone before completing it; a new client with a fresh token (same or new client id) starts from the same address while the first one's half-open entry is still at the server, and must be connected within B; (R') restart with the SAME token: the client process dies silently in a short session and is started again at the same address 0.5-0.8 timeouts later; the server drops the dead session at its timeout (its Disconnect reaches the still requesting new client) and the client must be connected on both sides within timeout + 4 x 250 ms + 10 ticks of its restart; (P) half-open entry (verif_pending hook) must vanish at the first update with floor(t) > expire, also under replayed requests. Non-trivial = the scenario's obligation was actually evaluated (deadline reached with preconditions true / a timeout verdict was taken / the pending entry was seen and then checked); distinct = distinct fingerprints of the datagram and state history.",
+    rule: "one evaluation = one simulated pair (real NetcodeServer + real NetcodeClient, addressed datagram network with per-datagram drop / duplicate / delay decisions, virtual time, tick lengths {10,100,250,400 ms, irregular}, timeouts {1,5,15 s,-1}) in one of five seeded scenarios: (H) handshake under a fault phase (random loss up to 90 %, duplication, reordering, or scripted 'lose the first n copies of handshake packet k' for each of the four packets), then faults stop and the pair must be connected on both sides within B = 4*(250 ms + 2*dt_max) + 1 s unless the token expiry or the client's own timeout falls inside B or the server is full; in half of the (H) pairs with other clients some of those were disconnected by the server application (NetcodeServer::disconnect) before the honest client starts - their slots are free whatever way they left; in half of the (H) pairs 1-5 OTHER addresses have started a handshake with valid tokens and abandoned it (half-open sessions are not connected clients and take nobody's slot); variants with other clients connected, the limit raised above its construction value, lowered to full and raised again; in half of the (H) and (F) pairs the applications STREAM: the server hands a payload to the session every tick from the moment it reports the client connected, the client likewise once connected; (F) failover: 1-2 silent server addresses listed before the real one; the client's clock does not share an origin with the clock the token was stamped on in half of the pairs (it starts near zero, or an hour to twelve days ahead: only durations matter to a client); (T) timeouts: connect, chatty phase with loss, then one or both directions go silent; at every update / update_client the deadline monitor demands a disconnect iff no authentic packet arrived for more than `timeout`, and forbids it while one arrived within `timeout`; the same history is run twice, once with injected datagrams (replayed Response / Request, random type-0 datagram, replayed / bit-flipped / wrong-key keep-alives, replayed Challenge) and the disconnect times of the twins are compared; (L) long lossy-but-live session in which each direction delivers at least one authentic packet per timeout/2: no disconnect allowed - in half of these the token lives 5-9 s and the session outlives it (a token bounds the handshake, not the session); (R) restart: a client starts a handshake and is gone before completing it; a new client with a fresh token (same or new client id) starts from the same address while the first one's half-open entry is still at the server, and must be connected within B; (R') restart with the SAME token: the client process dies silently in a short session and is started again at the same address 0.5-0.8 timeouts later; the server drops the dead session at its timeout (its Disconnect reaches the still requesting new client) and the client must be connected on both sides within timeout + 4 x 250 ms + 10 ticks of its restart; (P) half-open entry (verif_pending hook) must vanish at the first update with floor(t) > expire, also under replayed requests. Non-trivial = the scenario's obligation was actually evaluated (deadline reached with preconditions true / a timeout verdict was taken / the pending entry was seen and then checked); distinct = distinct fingerprints of the datagram and state history. In half of the (R') pairs the new process comes from ANOTHER port with a fresh token for the same client id: the server stays silent while it holds the dead session and the client must be connected within the same bound.",
     assumptions: &[
         "bounded liveness only: B = 4*(250 ms + 2*dt_max) + 1 s of virtual time after the fault phase; failover adds (timeout + 2*dt_max) per silent address",
         "authentic for the must-disconnect clause = first delivery of any datagram the peer really produced (lenient); for the must-not-disconnect clause only first deliveries of keep-alive / payload datagrams while connected count (strict); datagrams in between (a late Response after the server already connected the client) may or may not refresh",
